@@ -1,5 +1,5 @@
 (** C09 — listing and bucket ids are never reused. *)
-From FM Require Import Ids Reentrant CallSeq.
+From FM Require Import Ids Reentrant ReentrantDeep CallSeq.
 
 (** [creates_l_b m id] / [creates_b_b m id]: message [m] asks for the creation of listing /
     bucket [id] — through the native message, the CW20 hook or the CW721 hook (three paths
@@ -54,6 +54,14 @@ Theorem C09_used_forever_with_reentry : forall tx w,
   incl (b_used (market w)) (b_used (market (rrun w tx))).
 Proof. exact rrun_used_mono. Qed.
 Print Assumptions C09_used_forever_with_reentry.
+
+(** ... nested to any depth (model/ReentryDeep.v). *)
+Theorem C09_used_forever_with_deep_reentry : forall k w,
+  reaction k -> Inv (market w) ->
+  incl (l_used (market w)) (l_used (market (k w))) /\
+  incl (b_used (market w)) (b_used (market (k w))).
+Proof. exact reaction_used_mono. Qed.
+Print Assumptions C09_used_forever_with_deep_reentry.
 
 (** Under every interleaving (proofs/CallSeq.v): once an id has been accepted for a listing
     (bucket), no later state reached by any sequence of marketplace calls — any senders, order or
